@@ -218,6 +218,67 @@ theorem topHead_head {g : Graph} {c : Commit} {rest : List Commit} (hc : g.le c 
     · exact h x hx
   simp [this]
 
+/-- a merge into a branch that already contains every source finds "Already up to date" -/
+theorem Loc.merge_uptodate {l : Loc} {r : Ref} {c : Commit} (hw : l.refs.get r = some c) (hcc : l.g.le c c = true)
+    {srcs : List Commit} (h : ∀ x ∈ srcs, l.g.le x c = true) :
+    l.merge r srcs = some { l with refs := l.refs.set r c } := by
+  have htop := topHead_head hcc h
+  simp [Loc.merge, hw, htop]
+
+/-- same graph, same pending oracle answers, same refs -/
+def Loc.Same (l l' : Loc) : Prop := l'.g = l.g ∧ l'.orc = l.orc ∧ ∀ x, l'.refs.get x = l.refs.get x
+
+theorem Loc.Same.trans {a b c : Loc} (h1 : Loc.Same a b) (h2 : Loc.Same b c) : Loc.Same a c :=
+  ⟨h2.1.trans h1.1, h2.2.1.trans h1.2.1, fun x => (h2.2.2 x).trans (h1.2.2 x)⟩
+
+theorem Loc.merge1_uptodate {l : Loc} {r : Ref} {c : Commit} (hw : l.refs.get r = some c) (hcc : l.g.le c c = true)
+    {x : Commit} (h : l.g.le x c = true) : (l.merge1 r x).2 = true ∧ Loc.Same l (l.merge1 r x).1 := by
+  have hm := Loc.merge_uptodate hw hcc (srcs := [x]) (by
+    intro y hy; simp only [List.mem_cons, List.not_mem_nil, or_false] at hy; subst hy; exact h)
+  unfold Loc.merge1
+  rw [hm]
+  refine ⟨rfl, rfl, rfl, fun y => ?_⟩
+  simp only
+  rw [RefMap.get_set]
+  by_cases hy : y = r
+  · subst hy; simp [hw]
+  · simp [hy]
+
+theorem Loc.seq2_uptodate {l : Loc} {r : Ref} {c : Commit} (hw : l.refs.get r = some c) (hcc : l.g.le c c = true)
+    {x y : Commit} (hx : l.g.le x c = true) (hy : l.g.le y c = true) :
+    (l.seq2 r x y).2 = true ∧ Loc.Same l (l.seq2 r x y).1 := by
+  obtain ⟨h1, h1s⟩ := Loc.merge1_uptodate hw hcc hx
+  unfold Loc.seq2
+  simp only [h1, if_true]
+  obtain ⟨h2, h2s⟩ := Loc.merge1_uptodate (l := (l.merge1 r x).1) (r := r) (c := c) (x := y)
+    (by rw [h1s.2.2]; exact hw) (by rw [h1s.1]; exact hcc) (by rw [h1s.1]; exact hy)
+  exact ⟨h2, h1s.trans h2s⟩
+
+/-- **either strategy is idempotent**: merging what the branch already contains creates nothing, asks nothing and
+    moves nothing (git answers "Already up to date" to every single merge) -/
+theorem Loc.mergeN_uptodate {l : Loc} {r : Ref} {c : Commit} (hw : l.refs.get r = some c) (hcc : l.g.le c c = true)
+    (n : Bool) {a b : Commit} (ha : l.g.le a c = true) (hb : l.g.le b c = true) :
+    ∃ l', l.mergeN n r a b = some l' ∧ Loc.Same l l' := by
+  unfold Loc.mergeN
+  cases n with
+  | false =>
+    refine ⟨_, Loc.merge_uptodate hw hcc (srcs := [a, b]) ?_, rfl, rfl, fun y => ?_⟩
+    · intro x hx
+      simp only [List.mem_cons, List.not_mem_nil, or_false] at hx
+      rcases hx with rfl | rfl
+      · exact ha
+      · exact hb
+    · simp only
+      rw [RefMap.get_set]
+      by_cases hy : y = r
+      · subst hy; simp [hw]
+      · simp [hy]
+  | true =>
+    obtain ⟨h1, h1s⟩ := Loc.seq2_uptodate hw hcc ha hb
+    have hh : l.refs.has r = true := (RefMap.has_iff _ _).mpr ⟨c, hw⟩
+    refine ⟨(l.seq2 r a b).1, ?_, h1s⟩
+    simp [Loc.merge2, hh, h1]
+
 /-- **merge idempotence**: on a merged chain `update_integration_branches` finds every merge "already up to date":
     no commit is created and no ref changes -/
 theorem updateW_merged (pr : PrInfo) : ∀ (ds : List Dest) (l : Loc) (prev : Commit) (done : List Ref),
@@ -233,31 +294,22 @@ theorem updateW_merged (pr : PrInfo) : ∀ (ds : List Dest) (l : Loc) (prev : Co
       simp only
       cases hw : l.refs.get (.w d pr.src) with
       | none =>
-        have : l.merge (.w d pr.src) [t, prev] = none := by simp [Loc.merge, hw]
+        have : l.mergeN pr.noOct (.w d pr.src) t prev = none := by
+          have hh : l.refs.has (.w d pr.src) = false := by simp [RefMap.has, hw]
+          cases pr.noOct <;> simp [Loc.mergeN, Loc.merge2, Loc.merge, hw, hh]
         rw [this]
         exact ⟨rfl, fun _ => rfl⟩
       | some c =>
         rw [hd, hw] at hm
         obtain ⟨hcc, htc, hpc, hrest⟩ := hm
-        have htop : topHead l.g (c :: [t, prev]) = some c := topHead_head hcc (by
-          intro x hx
-          simp only [List.mem_cons, List.not_mem_nil, or_false] at hx
-          rcases hx with rfl | rfl
-          · exact htc
-          · exact hpc)
-        have hmerge : l.merge (.w d pr.src) [t, prev] = some { l with refs := l.refs.set (.w d pr.src) c } := by
-          simp [Loc.merge, hw, htop]
+        obtain ⟨l', hmerge, hg, _, hsame⟩ := Loc.mergeN_uptodate hw hcc pr.noOct htc hpc
         rw [hmerge]
-        simp only [RefMap.get_set_eq]
-        have hsame : ∀ x, (l.refs.set (.w d pr.src) c).get x = l.refs.get x := by
-          intro x
-          rw [RefMap.get_set]
-          by_cases hx : x = .w d pr.src
-          · subst hx; simp [hw]
-          · simp [hx]
-        have ih := updateW_merged pr ds { l with refs := l.refs.set (.w d pr.src) c } c (done ++ [.w d pr.src])
-          (Merged.congr hsame ds c hrest)
-        exact ⟨ih.1, fun x => (ih.2 x).trans (hsame x)⟩
+        simp only
+        rw [hsame, hw]
+        simp only
+        have ih := updateW_merged pr ds l' c (done ++ [.w d pr.src])
+          (by rw [hg]; exact Merged.congr hsame ds c hrest)
+        exact ⟨ih.1.trans hg, fun x => (ih.2 x).trans (hsame x)⟩
 
 /-- when git's content merges all succeed (empty oracle list), a merge into an existing branch succeeds -/
 theorem merge_succeeds {l : Loc} (horc : l.orc = []) {r : Ref} {tip : Commit} (hr : l.refs.get r = some tip)
@@ -273,6 +325,32 @@ theorem merge_succeeds {l : Loc} (horc : l.orc = []) {r : Ref} {tip : Commit} (h
     cases topHead l.g (tip :: srcs) with
     | some h => exact ⟨_, rfl, horc⟩
     | none => exact ⟨_, rfl, horc⟩
+
+theorem Loc.merge1_succeeds {l : Loc} (horc : l.orc = []) {r : Ref} (hr : l.refs.has r = true) (x : Commit) :
+    (l.merge1 r x).2 = true ∧ (l.merge1 r x).1.orc = [] := by
+  obtain ⟨tip, htip⟩ := (RefMap.has_iff _ _).mp hr
+  obtain ⟨l', hm, ho⟩ := merge_succeeds horc htip [x]
+  unfold Loc.merge1
+  rw [hm]
+  exact ⟨rfl, ho⟩
+
+theorem Loc.seq2_succeeds {l : Loc} (horc : l.orc = []) {r : Ref} (hr : l.refs.has r = true) (x y : Commit) :
+    (l.seq2 r x y).2 = true ∧ (l.seq2 r x y).1.orc = [] := by
+  obtain ⟨h1, h1o⟩ := Loc.merge1_succeeds horc hr x
+  unfold Loc.seq2
+  simp only [h1, if_true]
+  exact Loc.merge1_succeeds h1o (Loc.merge1_kept x hr).1 y
+
+/-- when git's content merges all succeed, either strategy succeeds at its first attempt -/
+theorem mergeN_succeeds {l : Loc} (horc : l.orc = []) {r : Ref} {tip : Commit} (hr : l.refs.get r = some tip)
+    (n : Bool) (a b : Commit) : ∃ l', l.mergeN n r a b = some l' ∧ l'.orc = [] := by
+  unfold Loc.mergeN
+  cases n with
+  | false => exact merge_succeeds horc hr [a, b]
+  | true =>
+    have hh : l.refs.has r = true := (RefMap.has_iff _ _).mpr ⟨tip, hr⟩
+    obtain ⟨h1, h1o⟩ := Loc.seq2_succeeds horc hh a b
+    exact ⟨(l.seq2 r a b).1, by simp [Loc.merge2, hh, h1], h1o⟩
 
 /-- **First evaluation**: with every content merge succeeding and every target present, the update of the integration
     branches goes through, fast-forwards each branch, changes nothing else, and leaves a merged chain. -/
@@ -293,14 +371,14 @@ theorem updateW_post (pr : PrInfo) : ∀ (ds : List Dest) (l : Loc) (prev : Comm
     obtain ⟨hdd, hdw⟩ := hex d List.mem_cons_self
     obtain ⟨t, ht⟩ := Option.isSome_iff_exists.mp hdd
     obtain ⟨tip, htip⟩ := Option.isSome_iff_exists.mp hdw
-    obtain ⟨l', hm, horc'⟩ := merge_succeeds horc htip [t, prev]
+    obtain ⟨l', hm, horc'⟩ := mergeN_succeeds horc htip pr.noOct t prev
     have hs : ∀ x ∈ [t, prev], x < l.g.size := by
       intro x hx
       simp only [List.mem_cons, List.not_mem_nil, or_false] at hx
       rcases hx with rfl | rfl
       · exact hl.valid _ _ ht
       · exact hp
-    obtain ⟨hl', hext, hsame, old, new, hold, hnew, hon, hsrc⟩ := Loc.merge_spec hl hs hm
+    obtain ⟨hl', hext, hsame, old, new, hold, hnew, hon, hsrc⟩ := Loc.mergeN_spec hl hs hm
     have hnewlt : new < l'.g.size := hl'.valid _ _ hnew
     rw [List.nodup_cons] at hnd
     have hne_dest : ∀ d' : Dest, Ref.dest d' ≠ Ref.w d pr.src := fun _ h => by cases h
